@@ -16,6 +16,12 @@ Proof.
   apply in_map_iff. exists (N.to_nat (Byte.to_N b)). rewrite N2Nat.id. split; [reflexivity|].
   apply in_seq. pose proof (Byte.to_N_bounded b). lia.
 Qed.
+Lemma all_bytes_in b : In b all_bytes.
+Proof.
+  unfold all_bytes. apply in_map_iff. exists (Byte.to_N b). rewrite Byte.of_to_N. split; [reflexivity|].
+  apply in_map_iff. exists (N.to_nat (Byte.to_N b)). rewrite N2Nat.id. split; [reflexivity|].
+  apply in_seq. pose proof (Byte.to_N_bounded b). lia.
+Qed.
 Lemma all_bytes2_spec (P : byte -> byte -> bool) :
   forallb (fun a => forallb (P a) all_bytes) all_bytes = true -> forall a b, P a b = true.
 Proof. intros H a b. apply all_bytes_spec. apply (all_bytes_spec (fun a => forallb (P a) all_bytes)). exact H. Qed.
